@@ -154,7 +154,7 @@ func genScalar(rt *rapid.T, o docOpts) Node {
 }
 
 func genDoc(rt *rapid.T, depth int, o docOpts) Node {
-	if depth <= 0 || rapid.IntRange(0, 9).Draw(rt, "leaf") < 3 {
+	if depth <= 0 || rapid.IntRange(0, 9).Draw(rt, "leaf") < 2 {
 		return genScalar(rt, o)
 	}
 	n := rapid.IntRange(0, 4).Draw(rt, "size")
